@@ -90,6 +90,12 @@ def eq_values(I, st, a, b):
         if heap_is_obj(I, other):
             return other == heap_none(I)
         return False
+    if isinstance(a, Inf) or isinstance(b, Inf):
+        if isinstance(a, Inf) and isinstance(b, Inf):
+            return a.sign == b.sign
+        if isinstance(a, Opaque) or isinstance(b, Opaque):
+            raise Unsupported("== on an uninterpreted value")
+        return False  # A1: every other modelled number is finite
     if is_z3(a) or is_z3(b):
         if isinstance(a, (str, tuple, Ref, Opaque)) or isinstance(b, (str, tuple, Ref, Opaque)):
             return False
@@ -239,6 +245,15 @@ def compare(I, st, op, a, b):
         return
     if isinstance(a, str) and isinstance(b, str):
         yield st, {"Lt": a < b, "LtE": a <= b, "Gt": a > b, "GtE": a >= b}[op]
+        return
+    if isinstance(a, Inf) or isinstance(b, Inf):
+        if not all(isinstance(x, Inf) or is_number(x) for x in (a, b)):
+            yield st, exc("TypeError", "'%s' not supported between %r and %r" % (op, a, b))
+            return
+        # A1: every modelled number is finite, i.e. strictly between -inf and +inf
+        ra = a.sign if isinstance(a, Inf) else 0
+        rb = b.sign if isinstance(b, Inf) else 0
+        yield st, {"Lt": ra < rb, "LtE": ra <= rb and (ra != 0 or rb != 0), "Gt": ra > rb, "GtE": ra >= rb and (ra != 0 or rb != 0)}[op]
         return
     if a is None or b is None or not (is_number(a) and is_number(b)):
         yield st, exc("TypeError", "'%s' not supported between %r and %r" % (op, a, b))
